@@ -498,6 +498,43 @@ def io_case(a, b, verbose, dt, dr):
     return ("sx_c10_es %d %s" % (verbose, run), exp, {"t1": repr(a), "t2": repr(b), "mode": "ignore_order", "verbose": verbose})
 
 
+def text_rep_obs(res):
+    """text-view dict -> (D.text_obs of everything but repetition_change, sorted repetition records)"""
+    rest = {k: v for k, v in res.items() if k != "repetition_change"}
+    reps = []
+    for p, r in (res.get("repetition_change") or {}).items():
+        if r["old_repeat"] != len(r["old_indexes"]) or r["new_repeat"] != len(r["new_indexes"]) or set(r) != {"old_repeat", "new_repeat", "old_indexes", "new_indexes", "value"}:
+            reps.append(["MALFORMED", p])
+        else:
+            reps.append([p, list(r["old_indexes"]), list(r["new_indexes"]), V.canon(r["value"])])
+    return ["text", D.text_obs(rest), core.sx_sorted(reps)]
+
+
+def rep_case(a, b, verbose, dt, dr):
+    """one Coq case: all presentations of an ignore_order + report_repetition run, incl. the
+    repetition_change category of the text view / to_json (model: run_diff_io with rep = true)"""
+    from deepdiff import DeepDiff
+    from harness.props import c05
+    with c05.Recording() as rec:
+        d2 = DeepDiff(a, b, ignore_order=True, report_repetition=True, view="tree", verbose_level=verbose)
+        tbl = c05.pairs_table(rec)
+        if not all(c05.pairs_valid(x) for x in rec):
+            return None
+    if c05.io_obs(d2) != c05.io_obs(dr):
+        return None
+    try:
+        js = json_obs(dt.to_json())
+    except (TypeError, UnicodeDecodeError):
+        js = "raise"
+    exp = [core.sx_sorted(pretty_statements(dt)), js,
+           text_rep_obs(dr.to_dict(view_override="text")),
+           ["tree", D.tree_obs(dt.to_dict(view_override="tree"))]]
+    run = "(run_diff_io hexhash (tbl_udiff %s) no_paths no_paths %s true (tbl_pairs %s) %s %s)" % (
+        D.coq_udiff_table(D.udiff_table(a, b)), D.coq_cfg(False, 0.33), c05.coq_pairs_table(tbl), V.to_coq(a), V.to_coq(b))
+    expr = "(let r := %s in sx_c10_rep %d (fst r) (map (fun x => (rpath x, rold x, rnew x)) (snd r)))" % (run, verbose)
+    return (expr, exp, {"t1": repr(a), "t2": repr(b), "mode": "ignore_order+repetition", "verbose": verbose})
+
+
 def value_case(v):
     try:
         js = jcanon(json.loads(_dumps(v), object_pairs_hook=Pairs))
@@ -633,7 +670,7 @@ MODES = (("ordered", {}), ("ignore_order", {"ignore_order": True}),
          ("ignore_order+repetition", {"ignore_order": True, "report_repetition": True}))
 
 
-def one_pair(ctx, t1, t2, cases, corr=True, iocases=None):
+def one_pair(ctx, t1, t2, cases, corr=True, iocases=None, repcases=None):
     a, b = copy.deepcopy(t1), copy.deepcopy(t2)
     sa, sb = D.snapshot(a), D.snapshot(b)
     thr = ctx.rng.choice([0.33, 0.33, 0])
@@ -666,6 +703,20 @@ def one_pair(ctx, t1, t2, cases, corr=True, iocases=None):
                     ctx.count("io_case_skipped")
                 else:
                     iocases.append(c)
+        if mode == "ignore_order+repetition" and corr and repcases is not None and D.in_model_guard(a, b) and repr_in_model(a, b) and not non_utf8_bytes(a, b):
+            for verbose, (dt, dr) in runs.items():
+                try:
+                    c = rep_case(a, b, verbose, dt, dr)
+                except Exception as e:
+                    ctx.break_("correspondence", {"name": "c10rep", "case": {"t1": repr(a), "t2": repr(b), "verbose": verbose},
+                                                  "error": "could not observe the presentations: " + repr(e)})
+                    continue
+                if c is None:
+                    ctx.count("rep_case_skipped")
+                else:
+                    repcases.append(c)
+                    if "repetition_change" in dr:
+                        ctx.count("rep_cases_with_repetition_change")
     if D.snapshot(a) != sa or D.snapshot(b) != sb:
         ctx.fail(dict(t1=repr(t1), t2=repr(t2), clause="inputs modified"), "a presentation modified an input")
 
@@ -696,14 +747,15 @@ def replay_witnesses(ctx):
 
 
 def run(ctx):
-    pairs = FIXED_PAIRS + gen_pairs(ctx, 6000 if ctx.thorough else 520)
-    cases, iocases = [], []
+    pairs = FIXED_PAIRS + gen_pairs(ctx, 4500 if ctx.thorough else 400)
+    cases, iocases, repcases = [], [], []
     for t1, t2 in pairs:
-        one_pair(ctx, t1, t2, cases, iocases=iocases)
+        one_pair(ctx, t1, t2, cases, iocases=iocases, repcases=repcases)
     for c in cases[:3]:
         ctx.sample(c[2])
     ctx.coq_cases("c10", HDR, cases, shard=60, label="all_presentations_ordered")
     ctx.coq_cases("c10io", IO_HDR, iocases, shard=60, label="all_presentations_ignore_order")
+    ctx.coq_cases("c10rep", IO_HDR, repcases, shard=60, label="all_presentations_ignore_order_repetition")
     vcases = []
     for _ in range(3000 if ctx.thorough else 400):
         v = gen_val(ctx.rng, 3, 3)
